@@ -112,3 +112,29 @@ impl foca::Identity for VId {
         }
     }
 }
+
+/// A second identity type, used only by the codec checks (C20): it has the field shapes `VId` lacks — single
+/// bytes, a bool, a signed byte, a string — so that every output path of the serde codecs is exercised
+/// (postcard emits `u8`/`i8`/`bool` through a different call than varints and slices).
+#[derive(Clone, Debug, PartialEq, Eq, Serialize, Deserialize)]
+pub struct WideId {
+    pub octets: [u8; 4],
+    pub up: bool,
+    pub port: u16,
+    pub tag: i8,
+    pub name: String,
+    pub bump: u64,
+}
+
+impl foca::Identity for WideId {
+    type Addr = ([u8; 4], u16);
+    fn renew(&self) -> Option<Self> {
+        None
+    }
+    fn addr(&self) -> Self::Addr {
+        (self.octets, self.port)
+    }
+    fn win_addr_conflict(&self, adversary: &Self) -> bool {
+        self.bump > adversary.bump
+    }
+}
